@@ -11,7 +11,7 @@ from meta.asttools import cmp_ast
 from doctrans import emit, parse
 from doctrans.ast_utils import RewriteAtQuery, find_in_ast, get_function_type
 from doctrans.pure_utils import pluralise, strip_split
-from doctrans.source_transformer import ast_parse
+from doctrans.source_transformer import ast_parse, to_code
 
 
 def _default_options(node, search, type_wanted):
@@ -185,7 +185,12 @@ def _conform_filename(
     )
 
     replaced = False
-    if not cmp_ast(original_node, replacement_node):
+    # Compared as it reads back from source: a node built by hand lacks the fields that newer
+    # interpreters give every parsed definition (`type_params`), and would never compare equal
+    if not cmp_ast(
+        original_node,
+        ast_parse(to_code(replacement_node), skip_docstring_remit=True).body[0],
+    ):
         rewrite_at_query = RewriteAtQuery(
             search=search,
             replacement_node=replacement_node,
